@@ -71,8 +71,11 @@ void h_write(void) {
     if (len == 0) __CPROVER_assert(h.buf[woff] == buf0[woff] && g_c_calls == 0, "C05 sha256_write (d): an empty write changes nothing");
 
     if (g_c_calls >= 2 && wblk == b0 / 64 && woff >= b0 % 64) REACH("write: tail completed and bulk call, watched byte from data in block 0");
-    if (MAXLEN > 400000 && g_c_calls >= 2 && wblk == b0 / 64 + 5000 && len > 400000) REACH("write: long input, watched block 5000");
-    if (MAXLEN <= 400000 && g_c_calls >= 2 && wblk == b0 / 64 + 2 && len > 200) REACH("write: bounded variant, watched block 2");
+#ifndef WRITE_BOUNDED
+    if (g_c_calls >= 2 && wblk == b0 / 64 + 5000 && len > 400000) REACH("write: long input, watched block 5000");
+#else
+    if (g_c_calls >= 2 && wblk == b0 / 64 + 2 && len > 200) REACH("write: bounded variant, watched block 2");
+#endif
     if (g_c_calls == 0 && len > 0 && woff < b1 % 64 && woff >= b0 % 64) REACH("write: buffered only");
     if (g_c_calls >= 1 && b0 % 64 == 0 && b1 % 64 == 0 && len > 64) REACH("write: aligned bulk");
     REACH("write end");
